@@ -200,6 +200,14 @@ fn text_of(c: &Case) -> String {
 
 /// `m.room.join_rules` → `RoomJoinRules` (the naming rule of the variants, written
 /// independently: strip `m.`, split at `.` and `_`, capitalize)
+/// the type a typed value shows for a JSON `type`: the type itself, or the canonical spelling of a declared alias
+fn shown_type(ty: &str) -> &str {
+    match ty {
+        "org.matrix.call.sdp_stream_metadata_changed" => "m.call.sdp_stream_metadata_changed",
+        t => t,
+    }
+}
+
 fn variant_name(ty: &str) -> String {
     ty.strip_prefix("m.")
         .unwrap_or(ty)
@@ -325,7 +333,7 @@ impl Ctx<'_> {
 /// the oracles on one content round trip
 fn check_fix(cx: &mut Ctx<'_>, route: &str, f: &Fix, t: &mut Tally) {
     let content = cx.c.event.get("content").cloned().unwrap_or_else(|| json!({}));
-    if f.event_type != cx.c.ty {
+    if f.event_type != shown_type(&cx.c.ty) {
         cx.push("content-event-type", format!("{route}: {}::event_type() = {:?}, JSON type {:?}", f.type_name, f.event_type, cx.c.ty));
     }
     let s1 = match &f.s1 {
@@ -487,7 +495,7 @@ fn eval(c: &Case, reference: Option<&Result<Obs, String>>, t: &mut Tally) -> (Vi
 
     // ---- accessors equal the JSON
     let js = |k: &str| c.event.get(k).and_then(Value::as_str).map(str::to_owned);
-    if obs.event_type != c.ty {
+    if obs.event_type != shown_type(&c.ty) {
         cx.push("accessor-event_type", format!("{enum_name}::event_type() = {:?}, JSON {:?}", obs.event_type, c.ty));
     }
     for (name, got, want) in [
